@@ -213,8 +213,14 @@ func sortInts(a []int) {
 	}
 }
 
+// c05ForcePreDelay makes the source wait before it sends anything after SYNC/PSYNC (set by C19's slow-source path).
+var c05ForcePreDelay time.Duration
+
 func (c *c05Case) steps() []fsrc.Step {
 	var steps []fsrc.Step
+	if c05ForcePreDelay > 0 {
+		steps = append(steps, fsrc.Step{Sleep: c05ForcePreDelay})
+	}
 	prev := 0
 	for i, p := range c.splits {
 		steps = append(steps, fsrc.Step{Send: c.stream[prev:p], Sleep: c.delays[i]})
